@@ -252,3 +252,66 @@ PROPS["C01"]["files"] = list(dict.fromkeys(PROPS["C01"]["files"] + ["proofs/Code
 
 PROPS["C08"]["prop_files"] = ["props/C08.v", "props/C08safe.v"]
 PROPS["C08"]["files"] = list(dict.fromkeys(PROPS["C08"]["files"] + ["proofs/SafetyProofs.v", "props/C08safe.v"]))
+
+SLICE_MODEL = ["gen/Consts.v", "gen/EngConsts.v", "model/Bytes.v", "model/Errors.v", "model/Codec.v", "model/CacheModel.v", "model/StateModel.v",
+               "model/NavModel.v", "model/RenderModel.v", "model/VmModel.v", "model/EngineModel.v", "corr/CorrBase.v", "corr/EngineCorr.v",
+               "model/SliceHeap.v", "corr/SliceCorr.v"]
+
+PROPS["C19"] = {
+    "prop_file": "props/C19.v",
+    "files": ["proofs/BytesProofs.v", "proofs/CodecProofs.v", "proofs/SliceHeapProofs.v", "props/C19.v"],
+    "model_files": SLICE_MODEL,
+    "drivers": [{"name": "alias", "bin": "vh_conc", "env": {"GORACE": "halt_on_error=1 exitcode=66"}, "n_quick": 200, "n_thorough": 2000},
+                {"name": "race", "bin": "vh_conc", "env": {"GORACE": "halt_on_error=1 exitcode=66"}, "n_quick": 40, "n_thorough": 300, "timeout": 1800}],
+    "rule": "driver alias (one goroutine, deterministic): n/2 schedules of 6-35 buffer operations (consume/append-from-resource/replace-from-resource/"
+            "fresh line/store/take/decode) for 2-4 sessions over 2-5 shared arrays with spare capacity {0,1,3,8,24,64}, executed with the library's own Go "
+            "statements on real slices, every step's readable contents, every allocation's capacity and the final arrays compared with SliceHeap; n/10 such "
+            "schedules with the pre-repair OpAdopt (model must reproduce the interference Go shows; not judged by the monitor); 2n/5 generated applications "
+            "(3-6 nodes of LOAD/RELOAD/MAP/CATCH/MOVE/MOUT before HALT, 1-4 INCMP after; forward-only moves before the first HALT) served by the REAL engine for 2-4 "
+            "sessions (long-lived or one engine per request over its own store, at random) that share nothing but the application's byte slices "
+            "(make([]byte,n,n+64), capacity filled with 0xEE, put into per-session db/mem instances: Put keeps the slice, checked), requests interleaved along a "
+            "generated schedule; every session's responses, snapshots and resource calls compared with EngineModel run for that session alone, responses compared with "
+            "the session's solo run, shared arrays compared byte for byte incl. the sentinel region, st.Code checked for overlap with shared arrays after every request. "
+            "driver race (binary built with -race): n applications x 2-16 goroutines (one session each, histories of 3-7, thorough 3-11 requests), each served concurrently 5 "
+            "(thorough 10) times, same comparisons; a data race ends the process with status 66. Self-test in every case file: the fixed two-session OpAdopt schedule and an "
+            "engine run whose st.Code was seeded with the resource's slice must be flagged; negative control: two goroutines through ONE DbResource must make the "
+            "detector fire. Non-trivial = at least 3 operations resp. 2 requests per session; distinct by case term",
+    "assumptions": ["sessions share ONLY immutable application data: one db/mem, DbResource, state, cache, store handle per session (a DbResource sets its db's key prefix on "
+                    "every call: sharing one is a data race, shown by the negative control)",
+                    "package-level variables are written by set-up calls only, before any session is served (list in trusted_extra); in particular engine.AddValidInput / "
+                    "vm.RegisterInputValidator is not called while serving (it races with vm.ValidInput, and its table is process-wide: see findings)",
+                    "the growth of reallocated arrays is an arbitrary function in the theorems; the correspondence feeds the capacities Go actually chose as the oracle",
+                    "array addresses are not observable in the library (no pointer comparison on the buffer): array ids in the model carry a ghost owner and a per-session counter",
+                    "entry functions (resource.EntryFunc) are the application's: the harness gives each session its own scripted functions"],
+    "trusted_extra": ["the Go race detector (ThreadSanitizer runtime linked by go build -race) and the Go scheduler: data-race freedom and sub-request interleavings are "
+                      "validated on the runs performed, not proved; verdict = process exit status 66",
+                      "package-level variables of /repo's library packages that are written after package initialisation, from the source (go/ast scan, 2026-09-28): "
+                      "vm.preInputRegexStr (map; written by vm.RegisterInputValidator <- engine.(*DefaultEngine).AddValidInput; read by vm.ValidInput), "
+                      "state.FlagDebugger (struct with a map; written by (*flagDebugger).Register <- asm.(*FlagParser).Load in debug mode and by applications; read by State.String in "
+                      "debug mode and engine.SimpleDebug.Break), logging.LogWriter and logging.LogLevel (exported, assigned by applications — the harness sets LogWriter once in hx.Silence; "
+                      "read by every log call resp. at logger construction), debug.NodeIndex / debug.MenuIndex (dev tooling, not imported by engine/vm/state/render/cache/persist/resource/db). "
+                      "Written only by set-up calls; everything else at package level is a constant table, a compiled regexp, a value-type logger or an error sentinel "
+                      "(state.MaxLevel, lang.Default, vm.OpcodeString/OpcodeIndex are exported and never written by the library); no init(), no sync/atomic anywhere",
+                      "harness go/cmd/vh_conc: the verbatim copies of the library's buffer statements in ccBuf.step, pointer-overlap test via unsafe.SliceData"],
+    "widen_n": 400,
+}
+
+PROPS["C19"]["selftests"] = [{"bin": "vh_conc", "args": ["race", "-prop", "C19", "-replay", "selftest:shared-resource"],
+                              "env": {"GORACE": "halt_on_error=1 exitcode=66"}, "expect_rc": 66}]
+
+PROPS["C03"]["prop_files"] = ["props/C03.v", "props/C03i.v"]
+PROPS["C03"]["prop_file"] = "props/C03.v"
+PROPS["C03"]["files"] = list(dict.fromkeys(PROPS["C03"]["files"] + ["proofs/RoutingProofs.v", "props/C03.v"]))
+PROPS["C04"]["prop_files"] = ["props/C04nav.v", "props/C04eng.v"]
+PROPS["C04"]["files"] = list(dict.fromkeys(PROPS["C04"]["files"] + ["proofs/CodecProofs.v", "proofs/CacheProofs.v", "proofs/VmProofs.v", "proofs/RoutingProofs.v", "props/C04eng.v"]))
+PROPS["C05"]["prop_files"] = ["props/C05.v", "props/C05i.v"]
+PROPS["C05"]["prop_file"] = "props/C05.v"
+PROPS["C05"]["files"] = list(dict.fromkeys(PROPS["C05"]["files"] + ["proofs/SymbolProofs.v", "props/C05.v"]))
+PROPS["C18"]["prop_files"] = ["props/C18.v", "props/C18i.v"]
+PROPS["C18"]["prop_file"] = "props/C18.v"
+PROPS["C18"]["files"] = list(dict.fromkeys(PROPS["C18"]["files"] + ["proofs/SymbolProofs.v", "props/C18.v"]))
+
+for _p in ("C06", "C20"):
+    PROPS[_p]["prop_files"] = ["props/%s.v" % _p, "props/%si.v" % _p]
+    PROPS[_p]["prop_file"] = "props/%s.v" % _p
+    PROPS[_p]["files"] = list(dict.fromkeys(PROPS[_p]["files"] + ["proofs/FlagProofs.v", "props/%s.v" % _p]))
